@@ -229,7 +229,7 @@ var c52GroupRe = regexp.MustCompile(`read group #(\d+) of (\d+) data packs \(out
 
 func streamC52(h *H) {
 	// ---------------------------------------------------------------- bucket: exhaustive in (t, n)
-	nd := h.N(40, 600)
+	nd := h.N(40, 300)
 	for d := 0; d < nd; d++ {
 		packs := c52GenPacks(h, 48)
 		all := c52Map(packs)
